@@ -107,13 +107,14 @@ fn cc_burst_motif() -> BoxedStrategy<Vec<MidiOp>> {
     (
         proptest::sample::select(vec![1u8, 7, 71, 74, 5, 65, 64]),
         0u8..=127,
-        prop_oneof![4 => Just((3u8, 121u8, 0u8)), 1 => Just((3u8, 123u8, 0u8)), 1 => (0u8..=127).prop_map(|n| (1u8, n, 100u8)), 1 => (0u8..=127, 0u8..=127).prop_map(|(c, v)| (3u8, c, v))],
+        prop_oneof![3 => Just((3u8, 121u8, 0u8)), 1 => Just((3u8, 123u8, 0u8)), 1 => (0u8..=127).prop_map(|n| (1u8, n, 100u8)), 1 => (0u8..=127, 0u8..=127).prop_map(|(c, v)| (3u8, c, v))],
         boundary_count(),
     )
         .prop_map(|(c, v, (kind, d1, d2), n)| {
+            let burst = if kind == 1 && n % 2 == 0 { MidiOp::AltBurst { d1, n } } else { MidiOp::Burst { kind, d1, d2, n } };
             vec![
                 MidiOp::Chan { kind: 3, own: true, other: 0, d1: c, d2: v, rs: false },
-                MidiOp::Burst { kind, d1, d2, n },
+                burst,
                 MidiOp::Chan { kind: 3, own: true, other: 0, d1: c, d2: v, rs: false },
             ]
         })
